@@ -58,6 +58,52 @@ type clEngine struct {
 	feesPaid [2]*big.Int // total spread fees transferred to the spread-reward address per token
 	feesOut  [2]*big.Int // total spread rewards claimed
 	opn      int
+	inc      *clIncState // incentive records, time log, dust budgets (cl_incentives_test.go)
+	queue    []scriptStep
+	forcePos uint64 // position the next op must act on (scripted sequences); 0 = random
+	forced   bool   // the current op is part of a scripted sequence
+	lastNew  uint64 // id created by the last successful create / add
+	opClass  string
+}
+
+// scriptStep: one op of a directed sequence (property C08: accrue -> partial withdraw / add / transfer -> (swap) -> claim
+// on the SAME position). id 0 = no position argument, ^0 = the id created by the preceding add-to-position.
+type scriptStep struct {
+	kind int
+	id   uint64
+}
+
+const (
+	kWithdraw = 28
+	kAdd      = 40
+	kSwap     = 46
+	kCollect  = 80
+	kTransfer = 99
+)
+
+// liqUnit: rounding loss of one truncated division by liquidity, in whole tokens (+1): growth per unit of liquidity is
+// truncated at 18 decimals, so up to (liquidity / 10^18) units are lost per division in pools with scaling factor one.
+func (e *clEngine) liqUnit() *big.Int {
+	tot := new(big.Int)
+	for _, q := range e.pos {
+		tot.Add(tot, q.liq)
+	}
+	if p := e.pool().GetLiquidity().BigInt(); p.Cmp(tot) > 0 {
+		tot.Set(p)
+	}
+	tot.Quo(tot, pow10(36))
+	return tot.Add(tot, big.NewInt(2))
+}
+
+func (e *clEngine) addDust(i int, n *big.Int) {
+	for j := 0; j < 2; j++ {
+		if i < 0 || i == j {
+			if e.inc.dust[j] == nil {
+				e.inc.dust[j] = new(big.Int)
+			}
+			e.inc.dust[j].Add(e.inc.dust[j], n)
+		}
+	}
 }
 
 func (e *clEngine) ctx() sdk.Context { return e.h.Ctx }
@@ -112,6 +158,48 @@ func (e *clEngine) dumpImpl() string {
 		p.GetCurrentSqrtPrice().BigInt(), p.GetCurrentTick(), p.GetLiquidity().BigInt(),
 		e.bal(p.GetAddress(), clDenom0), e.bal(p.GetAddress(), clDenom1),
 		strings.Join(ts, " "), strings.Join(ps, " "))
+}
+
+// dumpFeesImpl: the spread-reward bookkeeping of the pool, read from the real stores: accumulator value and total
+// shares, balance of the spread-reward address, growth-outside of every stored tick, the accumulator record of every
+// live position and GetClaimableSpreadRewards of each.
+func (e *clEngine) dumpFeesImpl() string {
+	k := e.h.App.ConcentratedLiquidityKeeper
+	p := e.pool()
+	pair := func(c sdk.DecCoins) string {
+		return fmt.Sprintf("%s,%s", c.AmountOf(clDenom0).BigInt(), c.AmountOf(clDenom1).BigInt())
+	}
+	acc, err := k.GetSpreadRewardAccumulator(e.ctx(), e.poolId)
+	if err != nil {
+		return "err-accum"
+	}
+	ticks, _ := k.GetAllInitializedTicksForPool(e.ctx(), e.poolId)
+	var os []string
+	for _, t := range ticks {
+		os = append(os, fmt.Sprintf("%d:%s", t.TickIndex, pair(t.Info.SpreadRewardGrowthOppositeDirectionOfLastTraversal)))
+	}
+	ids := make([]uint64, 0, len(e.pos))
+	for id := range e.pos {
+		ids = append(ids, id)
+	}
+	sort.Slice(ids, func(i, j int) bool { return ids[i] < ids[j] })
+	var rs, cs []string
+	for _, id := range ids {
+		rec, err := acc.GetPosition(cltypes.KeySpreadRewardPositionAccumulator(id))
+		if err == nil {
+			rs = append(rs, fmt.Sprintf("%d:%s:%s:%s", id, rec.NumShares.BigInt(), pair(rec.AccumValuePerShare), pair(rec.UnclaimedRewardsTotal)))
+		}
+		var c sdk.Coins
+		var cerr error
+		if !catch(func() { c, cerr = k.GetClaimableSpreadRewards(e.ctx(), id) }) || cerr != nil {
+			cs = append(cs, fmt.Sprintf("%d:err", id))
+		} else {
+			cs = append(cs, fmt.Sprintf("%d:%s,%s", id, c.AmountOf(clDenom0), c.AmountOf(clDenom1)))
+		}
+	}
+	return fmt.Sprintf("ok G=%s TS=%s fee0=%s fee1=%s O[%s] R[%s] C[%s]", pair(acc.GetValue()), acc.GetTotalShares().BigInt(),
+		e.bal(p.GetSpreadRewardsAddress(), clDenom0), e.bal(p.GetSpreadRewardsAddress(), clDenom1),
+		strings.Join(os, " "), strings.Join(rs, " "), strings.Join(cs, " "))
 }
 
 func (e *clEngine) ownerName(addr string) string {
@@ -186,7 +274,12 @@ func runCL(t *testing.T, seed int64, n int, dir string) {
 	done := 0
 	for done < n {
 		h.Reset()
-		e := &clEngine{h: h, o: o, r: r, pos: map[uint64]*clPos{}}
+		e := &clEngine{h: h, o: o, r: r, pos: map[uint64]*clPos{}, inc: newIncState()}
+		{ // incentives may be created for the first four supported uptimes (1ns, 1min, 1h, 1d)
+			prm := h.App.ConcentratedLiquidityKeeper.GetParams(h.Ctx)
+			prm.AuthorizedUptimes = cltypes.SupportedUptimes[:4]
+			h.App.ConcentratedLiquidityKeeper.SetParams(h.Ctx, prm)
+		}
 		e.feesPaid = [2]*big.Int{new(big.Int), new(big.Int)}
 		e.feesOut = [2]*big.Int{new(big.Int), new(big.Int)}
 		e.spacing = spacings[r.Intn(4)]
@@ -194,6 +287,11 @@ func runCL(t *testing.T, seed int64, n int, dir string) {
 		e.accs = h.TestAccs[:3]
 		for _, a := range e.accs {
 			h.FundAcc(a, sdk.NewCoins(sdk.NewCoin(clDenom0, osmomath.NewIntFromBigInt(pow10(30))), sdk.NewCoin(clDenom1, osmomath.NewIntFromBigInt(pow10(30))), sdk.NewCoin("uosmo", osmomath.NewIntFromBigInt(pow10(20)))))
+		}
+		// pools on either side of the accumulator scaling migration: with the threshold moved past the next pool id
+		// the pool uses scaling factor one (forfeited claim dust then goes back into the accumulator)
+		if r.Intn(2) == 0 {
+			h.App.ConcentratedLiquidityKeeper.SetSpreadFactorPoolIDMigrationThreshold(h.Ctx, 1<<40)
 		}
 		p := h.PrepareCustomConcentratedPool(e.accs[0], clDenom0, clDenom1, uint64(e.spacing), e.spf)
 		e.poolId = p.GetId()
@@ -209,6 +307,9 @@ func runCL(t *testing.T, seed int64, n int, dir string) {
 			done++
 			e.opn++
 			e.step()
+			o.Emit("clp fdump", e.dumpFeesImpl(), true)
+			e.oracleNoLoss(e.opClass)
+			e.oracleIncentives()
 			if e.r.Intn(3) == 0 {
 				o.Emit("clp dump", e.dumpImpl(), true)
 			}
@@ -236,11 +337,60 @@ func (e *clEngine) step() {
 	ms := cl.NewMsgServerImpl(k)
 	o := e.o
 	kind := e.r.Intn(100)
+	e.forced, e.forcePos = false, 0
+	if len(e.queue) > 0 {
+		st := e.queue[0]
+		e.queue = e.queue[1:]
+		id := st.id
+		if id == ^uint64(0) {
+			id = e.lastNew
+		}
+		if _, ok := e.pos[id]; ok || st.id == 0 {
+			kind, e.forced, e.forcePos = st.kind, true, id
+			o.Count("script.step")
+		} else {
+			e.queue = nil // the position is gone (e.g. the scripted op failed): drop the rest of the sequence
+		}
+	} else if len(e.pos) > 0 && e.r.Intn(9) == 0 {
+		// directed sequence on one position, preferably one that is in range now (so that the first swap accrues to it)
+		q := e.anyPos()
+		cur := e.pool().GetCurrentTick()
+		for try := 0; try < 6 && !(q.lower <= cur && cur < q.upper); try++ {
+			q = e.anyPos()
+		}
+		var mid scriptStep
+		last := scriptStep{kCollect, q.id}
+		switch e.r.Intn(3) {
+		case 0:
+			mid = scriptStep{kWithdraw, q.id}
+			o.Count("script.accrue-partialwithdraw-claim")
+		case 1:
+			mid = scriptStep{kAdd, q.id}
+			last = scriptStep{kCollect, ^uint64(0)}
+			o.Count("script.accrue-add-claim")
+		default:
+			mid = scriptStep{kTransfer, q.id}
+			o.Count("script.accrue-transfer-claim")
+		}
+		e.queue = []scriptStep{{kSwap, 0}, mid}
+		if e.r.Intn(2) == 0 {
+			e.queue = append(e.queue, scriptStep{kSwap, 0})
+		}
+		if e.r.Intn(4) == 0 { // a second partial withdrawal before the claim: the parked rewards must survive another update
+			e.queue = append(e.queue, scriptStep{kWithdraw, last.id})
+		}
+		e.queue = append(e.queue, last)
+		st := e.queue[0]
+		e.queue = e.queue[1:]
+		kind, e.forced = st.kind, true
+	}
 	if len(e.pos) == 0 {
 		kind = 0
+		e.queue = nil
 	}
 	switch {
 	case kind < 28: // create position (sometimes as twin / k-multiple of the previous one)
+		e.opClass = "create"
 		owner := e.r.Intn(3)
 		var lower, upper int64
 		var a0, a1 *big.Int
@@ -280,13 +430,19 @@ func (e *clEngine) step() {
 			}
 		}
 	case kind < 40: // withdraw (partial / full)
+		e.opClass = "withdraw"
 		q := e.anyPos()
 		owner := q.owner
-		if e.r.Intn(15) == 0 {
+		if e.r.Intn(15) == 0 && !e.forced {
 			owner = (owner + 1) % 3 // wrong owner: error path
 		}
 		liq := new(big.Int).Set(q.liq)
-		switch e.r.Intn(5) {
+		sel := e.r.Intn(5)
+		if e.forced {
+			sel = 0 // scripted: a genuine partial withdrawal
+		}
+		snap := e.incBefore(q, owner)
+		switch sel {
 		case 4: // withdraw exactly the difference to a neighbour sharing a boundary tick, so that tick's NET becomes zero while its gross stays positive
 			for _, o2 := range e.pos {
 				if o2.id != q.id && (o2.upper == q.lower || o2.lower == q.upper) && o2.liq.Cmp(q.liq) < 0 {
@@ -323,10 +479,21 @@ func (e *clEngine) step() {
 		if q.liq.Sign() == 0 {
 			delete(e.pos, q.id)
 			o.Count("withdraw.full")
+			e.opClass = "withdraw-full"
+		} else {
+			o.Count("withdraw.partial")
+			e.opClass = "withdraw-partial"
+		}
+		e.addDust(-1, e.liqUnit())
+		e.incAfter(snap, owner, "withdraw", e.pool().GetLiquidity().BigInt())
+		if q.liq.Sign() == 0 {
+			e.posGone(q.id)
 		}
 	case kind < 46: // add to position (= withdraw all + create under a new id) : through the msg server
+		e.opClass = "add"
 		q := e.anyPos()
 		a0, a1 := e.randAmount(), e.randAmount()
+		snap := e.incBefore(q, q.owner)
 		var resp *cltypes.MsgAddToPositionResponse
 		oldLiq := new(big.Int).Set(q.liq)
 		err := e.atomic(func(ctx sdk.Context) error {
@@ -346,30 +513,71 @@ func (e *clEngine) step() {
 		o.Count("add.ok")
 		np, _ := k.GetPosition(e.ctx(), resp.PositionId)
 		delete(e.pos, q.id)
+		// the forfeited incentives of the old position were redeposited after its withdrawal and before the new one existed
+		lmid := e.pool().GetLiquidity().BigInt()
+		if cur := e.pool().GetCurrentTick(); np.LowerTick <= cur && cur < np.UpperTick {
+			lmid = new(big.Int).Sub(lmid, np.Liquidity.BigInt())
+		}
+		e.addDust(-1, e.liqUnit())
+		e.incAfter(snap, q.owner, "add", lmid)
+		e.posGone(q.id)
 		e.pos[resp.PositionId] = &clPos{id: resp.PositionId, owner: q.owner, lower: np.LowerTick, upper: np.UpperTick, liq: np.Liquidity.BigInt()}
+		e.posCreated(resp.PositionId)
+		e.lastNew = resp.PositionId
 	case kind < 80: // swap
+		e.opClass = "swap"
 		e.swap()
-	case kind < 86: // collect spread rewards
+	case kind < 86: // collect spread rewards (by the owner; sometimes by somebody else: error, nothing changes)
+		e.opClass = "collect"
 		q := e.anyPos()
+		sender := q.owner
+		if e.r.Intn(8) == 0 && !e.forced {
+			sender = (sender + 1 + e.r.Intn(2)) % 3
+		}
 		var resp *cltypes.MsgCollectSpreadRewardsResponse
 		var claimable sdk.Coins
 		if !catch(func() { claimable, _ = k.GetClaimableSpreadRewards(e.ctx(), q.id) }) {
 			o.Fail("rewards:claimable-query-panicked", fmt.Sprintf("op %d pos %d", e.opn, q.id))
 			return
 		}
+		feeAddr := e.pool().GetSpreadRewardsAddress()
+		f0, f1 := e.bal(feeAddr, clDenom0), e.bal(feeAddr, clDenom1)
 		err := e.atomic(func(ctx sdk.Context) error {
 			var err error
-			resp, err = ms.CollectSpreadRewards(ctx, &cltypes.MsgCollectSpreadRewards{PositionIds: []uint64{q.id}, Sender: e.accs[q.owner].String()})
+			resp, err = ms.CollectSpreadRewards(ctx, &cltypes.MsgCollectSpreadRewards{PositionIds: []uint64{q.id}, Sender: e.accs[sender].String()})
 			return err
 		})
+		line := fmt.Sprintf("clp collect acc%d %d", sender, q.id)
+		if sender != q.owner {
+			o.Count("collect.spread-non-owner")
+			if err == nil {
+				o.Emit(line, "ok", true)
+				o.Fail("rewards:collect-by-non-owner-succeeded", fmt.Sprintf("op %d pos %d", e.opn, q.id))
+			} else {
+				o.Emit(line, "err", true)
+			}
+			return
+		}
 		o.Count("collect.spread")
 		if err != nil {
+			o.Emit(line, "err", true)
 			o.Fail("rewards:collect-spread-failed", fmt.Sprintf("op %d pos %d: %v", e.opn, q.id, err))
 			return
 		}
+		o.Emit(line, fmt.Sprintf("ok c0=%s c1=%s", resp.CollectedSpreadRewards.AmountOf(clDenom0), resp.CollectedSpreadRewards.AmountOf(clDenom1)), true)
+		if !resp.CollectedSpreadRewards.IsZero() {
+			o.Count("collect.spread-nonzero")
+		}
 		q.untouched = false
+		e.addDust(-1, e.liqUnit())
 		if !resp.CollectedSpreadRewards.Equal(claimable) {
 			o.Fail("rewards:collected!=claimable-query", fmt.Sprintf("op %d pos %d got %s query %s", e.opn, q.id, resp.CollectedSpreadRewards, claimable))
+		}
+		// exactly the collected coins left the spread-reward address
+		g0, g1 := e.bal(feeAddr, clDenom0), e.bal(feeAddr, clDenom1)
+		if new(big.Int).Sub(f0, g0).Cmp(resp.CollectedSpreadRewards.AmountOf(clDenom0).BigInt()) != 0 ||
+			new(big.Int).Sub(f1, g1).Cmp(resp.CollectedSpreadRewards.AmountOf(clDenom1).BigInt()) != 0 {
+			o.Fail("rewards:collect-moved-other-than-collected", fmt.Sprintf("op %d pos %d", e.opn, q.id))
 		}
 		e.feesOut[0].Add(e.feesOut[0], resp.CollectedSpreadRewards.AmountOf(clDenom0).BigInt())
 		e.feesOut[1].Add(e.feesOut[1], resp.CollectedSpreadRewards.AmountOf(clDenom1).BigInt())
@@ -383,40 +591,23 @@ func (e *clEngine) step() {
 			o.Fail("rewards:duplicate-claim", fmt.Sprintf("op %d pos %d again %s", e.opn, q.id, again))
 		}
 	case kind < 90: // collect incentives
-		q := e.anyPos()
-		err := e.atomic(func(ctx sdk.Context) error {
-			_, err := ms.CollectIncentives(ctx, &cltypes.MsgCollectIncentives{PositionIds: []uint64{q.id}, Sender: e.accs[q.owner].String()})
-			return err
-		})
-		o.Count("collect.incentives")
-		if err != nil {
-			o.Fail("rewards:collect-incentives-failed", fmt.Sprintf("op %d pos %d: %v", e.opn, q.id, err))
-		}
-		q.untouched = false
-	case kind < 94: // create incentive
-		amt := new(big.Int).Mul(big.NewInt(int64(1+e.r.Intn(1000))), pow10(6))
-		rate := new(big.Int).Mul(big.NewInt(int64(1+e.r.Intn(100000))), pow10(15))
-		upt := cltypes.SupportedUptimes[0]
-		if e.r.Intn(3) == 0 {
-			upt = cltypes.SupportedUptimes[e.r.Intn(3)]
-		}
-		err := e.atomic(func(ctx sdk.Context) error {
-			_, err := k.CreateIncentive(ctx, e.poolId, e.accs[e.r.Intn(3)], sdk.NewCoin("uosmo", osmomath.NewIntFromBigInt(amt)), sd(rate), ctx.BlockTime(), upt)
-			return err
-		})
-		if err != nil {
-			o.Count("incentive.err")
-		} else {
-			o.Count("incentive.ok")
-		}
-	case kind < 98: // time advance
+		e.opClass = "collect-incentives"
+		e.collectIncentivesOp()
+	case kind < 93: // create incentive record (random authorised uptime, rate, amount, start now or later; own denom)
+		e.opClass = "create-incentive"
+		e.createIncentive()
+	case kind < 98: // block time advance (seconds .. days), also while no liquidity is active
+		e.opClass = "advance"
 		d := time.Duration(1+e.r.Intn(3600)) * time.Second
-		if e.r.Intn(4) == 0 {
+		switch e.r.Intn(5) {
+		case 0:
 			d = time.Duration(1+e.r.Intn(48)) * time.Hour
+		case 1:
+			d = time.Duration(1+e.r.Intn(90)) * time.Second
 		}
-		e.h.Ctx = e.h.Ctx.WithBlockTime(e.h.Ctx.BlockTime().Add(d)).WithBlockHeight(e.h.Ctx.BlockHeight() + 1)
-		o.Count("time.advance")
+		e.advanceTime(d)
 	default: // transfer a position
+		e.opClass = "transfer"
 		q := e.anyPos()
 		to := (q.owner + 1 + e.r.Intn(2)) % 3
 		err := e.atomic(func(ctx sdk.Context) error {
@@ -442,6 +633,11 @@ func (e *clEngine) step() {
 }
 
 func (e *clEngine) anyPos() *clPos {
+	if e.forcePos != 0 {
+		if q, ok := e.pos[e.forcePos]; ok {
+			return q
+		}
+	}
 	ids := make([]uint64, 0, len(e.pos))
 	for id := range e.pos {
 		ids = append(ids, id)
@@ -479,6 +675,8 @@ func (e *clEngine) create(owner int, lower, upper int64, a0, a1 *big.Int) (uint6
 	e.o.Emit(line, fmt.Sprintf("ok id=%d a0=%s a1=%s liq=%s lower=%d upper=%d", data.ID, data.Amount0, data.Amount1, data.Liquidity.BigInt(), data.LowerTick, data.UpperTick), true)
 	e.o.Count("create.ok")
 	e.pos[data.ID] = &clPos{id: data.ID, owner: owner, lower: data.LowerTick, upper: data.UpperTick, liq: data.Liquidity.BigInt(), untouched: true}
+	e.posCreated(data.ID)
+	e.lastNew = data.ID
 	p := e.pool()
 	if p.GetCurrentTick() >= data.LowerTick && p.GetCurrentTick() < data.UpperTick {
 		e.pos[data.ID].everInRange = true
